@@ -167,6 +167,8 @@ def gen_signal(rng, min_len=1, max_len=80):
             if rng.random() < 0.3:
                 out.append(x + rng.choice([-1, 1]) * eps * rng.choice([1, 2, 0.5]))
         sig = out
+    if rng.random() < 0.08:
+        sig = [(-0.0 if (x == 0 and rng.random() < 0.5) else x) for x in sig]      # negative zeros are zeros
     return sig[:max(max_len, min_len)]
 
 
